@@ -51,26 +51,13 @@ type vdrEnt struct {
 	// starts at the link reports) and the link text
 	Follow int64  `json:"f,omitempty"`
 	Dest   string `json:"d,omitempty"`
+	// the other logical names getLogicalFileNames gives for the link
+	Alts []string `json:"a,omitempty"`
 }
 
-// walkRootLink: a symbolic link directly below a job's files/ or tmp/
-// directory.  The VDR code walks every such child with util.Walk, which opens
-// (and thereby follows) its root.
-func walkRootLink(rel string, e vdrEnt) bool {
-	if e.Kind != "l" {
-		return false
-	}
-	base := path.Base(path.Dir(rel))
-	return base == "files" || base == "tmp"
-}
-
-// sizeAsWalked: the size the VDR code records for the entry.
-func sizeAsWalked(rel string, e vdrEnt) int64 {
-	if walkRootLink(rel, e) {
-		return e.Follow
-	}
-	return e.Size
-}
+// sizeAsWalked: the size the VDR code records for the entry (a symbolic
+// link is an entry of its own size; Walk does not follow it).
+func sizeAsWalked(rel string, e vdrEnt) int64 { return e.Size }
 
 // VdrViolation is a monitor failure found by the worker.
 type VdrViolation struct {
@@ -116,6 +103,8 @@ type vdrRun struct {
 	res     *VdrResult
 	psdir   string
 	outside map[string]string // sentinel path -> content
+	extDir  string            // a directory with data outside the pipestance
+	extFile string            // a file outside the pipestance
 	// every entry ever seen below a job's files/ or tmp/ directory
 	// (relative path -> kind/size at first sighting)
 	ever map[string]vdrEnt
@@ -191,6 +180,11 @@ func lstatTree(root string) map[string]vdrEnt {
 			e.Dest, _ = os.Readlink(p)
 			if st, err := os.Stat(p); err == nil {
 				e.Follow = st.Size()
+			}
+			for _, n := range core.VerifLogicalFileNames(p) {
+				if n != p {
+					e.Alts = append(e.Alts, n)
+				}
 			}
 			out[rel] = e
 		case info.IsDir():
@@ -273,7 +267,22 @@ func (v *vdrRun) snapshot(full bool) *vdrSnapshot {
 // observe: after a step (behind a storage barrier): which entries went away,
 // and is each removal allowed (C04 safety: nothing that an unfinished
 // consumer or the top level still names).
+// checkOutside: the data outside the pipestance directory is as it was.
+func (v *vdrRun) checkOutside(key, by string) {
+	for p, c := range v.outside {
+		if b, err := os.ReadFile(p); err != nil || string(b) != c {
+			v.violate("C14", "property", key,
+				fmt.Sprintf("%s (outside the pipestance directory %s) was removed or changed %s", p, v.psdir, by), nil)
+			v.outside[p] = string(b) // report once
+			if err != nil {
+				delete(v.outside, p)
+			}
+		}
+	}
+}
+
 func (v *vdrRun) observe(duringReset bool) {
+	v.checkOutside("C14:outside-touched", "while the pipestance ran")
 	tree := lstatTree(v.psdir)
 	seq := len(v.r.Events)
 	var newly []string
@@ -400,7 +409,21 @@ func (v *vdrRun) outsHook(job *TAJob, outs map[string]interface{}) {
 		}
 		switch {
 		case p.Tname.Tname == syntax.KindString && p.Tname.ArrayDim == 0 && p.Tname.MapDim == 0:
-			switch rng.Intn(5) {
+			switch rng.Intn(7) {
+			case 5: // files/extref -> a directory OUTSIDE the pipestance; the output names one file through the link
+				lnk := path.Join(job.FilesPath, "extref_"+p.Id)
+				os.Remove(lnk)
+				if os.Symlink(v.extDir, lnk) == nil {
+					outs[p.Id] = lnk + "/y.txt"
+					v.hist("shape-output-through-link-to-external-dir")
+				}
+			case 6: // the output names a link to a FILE outside the pipestance
+				lnk := path.Join(job.FilesPath, "extf_"+p.Id+".lnk")
+				os.Remove(lnk)
+				if os.Symlink(v.extFile, lnk) == nil {
+					outs[p.Id] = lnk
+					v.hist("shape-output-link-to-external-file")
+				}
 			case 4: // the output names a symbolic link to data kept elsewhere below files/
 				real := path.Join(job.FilesPath, "real_"+p.Id, "data.bin")
 				lnk := path.Join(job.FilesPath, "lnk_"+p.Id+".dat")
@@ -448,9 +471,25 @@ func (v *vdrRun) outsHook(job *TAJob, outs map[string]interface{}) {
 		write(path.Join(job.FilesPath, "scratchdir", "a", "x.bin"), "x "+job.Key)
 		write(path.Join(job.FilesPath, "scratchdir", "y.bin"), "y "+job.Key)
 	}
+	if rng.Intn(3) == 0 && !v.spec.NoExtra {
+		// links nobody names, to a directory and to a file outside the pipestance
+		a, b := path.Join(job.FilesPath, "extdir_unref"), path.Join(job.FilesPath, "extfile_unref")
+		os.Remove(a)
+		os.Remove(b)
+		if os.Symlink(v.extDir, a) == nil && os.Symlink(v.extFile, b) == nil {
+			v.hist("shape-unreferenced-links-to-outside")
+		}
+	}
 	if rng.Intn(3) != 0 {
 		td := path.Join(job.MetadataPath, "tmp")
 		if st, err := os.Stat(td); err == nil && st.IsDir() {
+			if rng.Intn(3) == 0 {
+				os.Remove(path.Join(td, "extdir"))
+				os.Remove(path.Join(td, "extf"))
+				if os.Symlink(v.extDir, path.Join(td, "extdir")) == nil && os.Symlink(v.extFile, path.Join(td, "extf")) == nil {
+					v.hist("shape-tmp-links-to-outside")
+				}
+			}
 			if write(path.Join(td, "t1.tmp"), "tmp "+job.Key) {
 				v.tmpFiles[v.rel(path.Join(td, "t1.tmp"))] = true
 			}
@@ -538,6 +577,16 @@ func runVdrSpec(spec *VdrSpec, scratch string) *VdrResult {
 	for _, s := range []string{path.Join(base, "sentinel.txt"), run.PsDir + "x/inside.txt", run.PsDir + ".bak"} {
 		os.MkdirAll(path.Dir(s), 0o755)
 		c := "sentinel " + path.Base(s)
+		if os.WriteFile(s, []byte(c), 0o644) == nil {
+			v.outside[s] = c
+		}
+	}
+	// data outside the pipestance that stages link to from their files/ and tmp/ directories
+	v.extDir = path.Join(base, "extdata")
+	v.extFile = path.Join(base, "extfile.bin")
+	for _, s := range []string{v.extDir + "/x.txt", v.extDir + "/y.txt", v.extDir + "/sub/z.txt", v.extFile} {
+		os.MkdirAll(path.Dir(s), 0o755)
+		c := "external " + path.Base(s) + strings.Repeat(".", 300)
 		if os.WriteFile(s, []byte(c), 0o644) == nil {
 			v.outside[s] = c
 		}
@@ -644,8 +693,10 @@ func (v *vdrRun) loop() {
 			r.log("complete", "", string(st))
 			r.ps.VDRKill()
 			r.ps.VerifStorageBarrier()
+			v.checkOutside("C14:outside-touched", "by volatile data removal")
 			v.postKill = v.snapshot(true)
 			r.ps.PostProcess()
+			v.checkOutside("C14:outside-touched-by-postprocess", "by post-processing")
 			v.final = v.snapshot(true)
 			r.ps.Unlock()
 			r.Final = "complete"
